@@ -248,8 +248,8 @@ impl Check for C11 {
     }
     fn runs(&self, tier: Tier) -> u64 {
         match tier {
-            Tier::Quick => 100_000,
-            Tier::Thorough => 3_000_000,
+            Tier::Quick => 1_000_000,
+            Tier::Thorough => 20_000_000,
         }
     }
     fn run_seed(&self, seed: u64) -> RunOut {
@@ -624,8 +624,8 @@ impl Check for C19 {
     }
     fn runs(&self, tier: Tier) -> u64 {
         match tier {
-            Tier::Quick => 150_000,
-            Tier::Thorough => 5_000_000,
+            Tier::Quick => 2_000_000,
+            Tier::Thorough => 40_000_000,
         }
     }
     fn run_seed(&self, seed: u64) -> RunOut {
@@ -879,10 +879,7 @@ pub fn run_qprogram(p: &QProgram) -> (RunOut, Vec<u8>) {
     let mut dg = Digest::default();
     {
         let g = sched.m.lock().unwrap();
-        for e in &g.trace {
-            dg.u64((e.kind as u64) << 56 | (e.tid as u64) << 48 | (e.op as u64) << 40 | (e.site as u64) << 32 | (e.outcome as u64) << 24);
-            dg.u64(e.key);
-        }
+        crate::conc::digest_trace(&mut dg, &g.trace);
     }
     let _ = trace_len;
     let mut viol = |out: &mut RunOut, sig: &str, d: String| {
@@ -1094,6 +1091,10 @@ impl Check for C08 {
 pub struct GenProgram {
     #[serde(with = "hex128")]
     pub ns: u128,
+    /// 0: fresh generator (created by program thread 0, which also calls it);
+    /// otherwise the generator is deserialized from JSON with this counter value
+    #[serde(default)]
+    pub start: u64,
     pub calls: Vec<u32>,
     pub strategy: Strategy,
     pub sched_seed: u64,
@@ -1112,8 +1113,25 @@ impl C14 {
             _ => k.u128(),
         };
         let big = k.chance(1, 6);
+        let start = if k.chance(1, 4) {
+            *k.pick(&[
+                1u64,
+                9,
+                99_999,
+                (1 << 32) - 3,
+                999_999_999_999_999,
+                9_999_999_999_999_990,
+                10_000_000_000_000_000,
+                99_999_999_999_999_995,
+                (1 << 63) - 2,
+                u64::MAX - 100_000,
+            ])
+        } else {
+            0
+        };
         GenProgram {
             ns,
+            start,
             calls: (0..n)
                 .map(|_| 1 + k.below(if big { 50 } else { 6 }) as u32)
                 .collect(),
@@ -1126,7 +1144,22 @@ impl C14 {
         let mut out = RunOut::default();
         let n = p.calls.len();
         let total: u64 = p.calls.iter().map(|c| *c as u64).sum();
-        let g = Arc::new(UuidGenerator::new(Uuid::from_u128(p.ns)));
+        let cell: Arc<std::sync::OnceLock<Arc<UuidGenerator>>> = Arc::new(std::sync::OnceLock::new());
+        let make = {
+            let (ns, start) = (p.ns, p.start);
+            move || -> UuidGenerator {
+                if start == 0 {
+                    UuidGenerator::new(Uuid::from_u128(ns))
+                } else {
+                    let j = format!(
+                        "{{\"namespace\":\"{}\",\"counter\":{}}}",
+                        Uuid::from_u128(ns),
+                        start
+                    );
+                    serde_json::from_str(&j).expect("generator JSON")
+                }
+            }
+        };
         let sched = Sched::new(
             n,
             p.strategy.clone(),
@@ -1140,7 +1173,8 @@ impl C14 {
         let mut jobs: Vec<Box<dyn FnOnce() -> Vec<Uuid> + Send>> = vec![];
         for (tid, c) in p.calls.iter().enumerate() {
             let sched = sched.clone();
-            let g = g.clone();
+            let cell = cell.clone();
+            let make = make.clone();
             let c = *c;
             jobs.push(Box::new(move || {
                 let _i = Installed::new(Arc::new(ThreadHooks {
@@ -1148,7 +1182,18 @@ impl C14 {
                     tid,
                 }));
                 let mut v = vec![];
+                // the generator is created by program thread 0 (which also uses it), before any
+                // thread gets its first turn
+                if tid == 0 {
+                    let _ = cell.set(Arc::new(pricelevel::verif::muted(&make)));
+                }
                 sched.thread_start(tid);
+                let g = loop {
+                    if let Some(g) = cell.get() {
+                        break g.clone();
+                    }
+                    std::thread::yield_now();
+                };
                 let _ = guarded(|| {
                     sched.op_begin(tid, 0);
                     for _ in 0..c {
@@ -1187,8 +1232,8 @@ impl C14 {
         out.faults.insert("preemptions", switches);
         out.strategy = Some(p.strategy.name());
         // oracle: set equality with a fresh sequential generator; reproducibility
-        let reference = UuidGenerator::new(Uuid::from_u128(p.ns));
-        let twin = UuidGenerator::new(Uuid::from_u128(p.ns));
+        let reference = make();
+        let twin = make();
         let mut expect: BTreeSet<Uuid> = BTreeSet::new();
         let mut repro_ok = true;
         muted(|| {
@@ -1207,6 +1252,7 @@ impl C14 {
             dg.u64(*s as u64);
         }
         dg.u64(p.ns as u64);
+        dg.u64(p.start);
         out.digest = dg.finish();
         out.nontrivial = switches > 0;
         if got.len() != all.len() {
@@ -1226,9 +1272,10 @@ impl C14 {
                 sig: "C14/not-the-sequential-ids".into(),
                 at: 0,
                 detail: format!(
-                    "the {} ids issued concurrently are not the first {} ids of a fresh generator with the same namespace",
+                    "the {} ids issued concurrently are not the first {} ids of a sequential generator with the same namespace and starting point ({})",
                     all.len(),
-                    all.len()
+                    all.len(),
+                    p.start
                 ),
             });
         }
@@ -1253,8 +1300,8 @@ impl Check for C14 {
     }
     fn runs(&self, tier: Tier) -> u64 {
         match tier {
-            Tier::Quick => 60_000,
-            Tier::Thorough => 3_000_000,
+            Tier::Quick => 400_000,
+            Tier::Thorough => 8_000_000,
         }
     }
     fn run_seed(&self, seed: u64) -> RunOut {
@@ -1354,8 +1401,8 @@ impl Check for C15 {
     }
     fn runs(&self, tier: Tier) -> u64 {
         match tier {
-            Tier::Quick => 80_000,
-            Tier::Thorough => 3_000_000,
+            Tier::Quick => 600_000,
+            Tier::Thorough => 12_000_000,
         }
     }
     fn run_seed(&self, seed: u64) -> RunOut {
